@@ -43,11 +43,15 @@ fn check_for_shadowing(
 }
 
 pub fn check_for_redefinitions(ast: &Ast, diagnostics: &mut Diagnostics) {
-    RedefinitionChecker { diagnostics }.check_for_redefinitions(ast);
+    let modules = HashMap::new();
+    RedefinitionChecker { diagnostics, modules }.check_for_redefinitions(ast);
 }
 
 struct RedefinitionChecker<'a> {
     diagnostics: &'a mut Diagnostics,
+
+    /// The modules declared in the AST, keyed by their fully-scoped identifiers.
+    modules: HashMap<String, &'a dyn NamedSymbol>,
 }
 
 impl<'a> RedefinitionChecker<'a> {
@@ -57,14 +61,15 @@ impl<'a> RedefinitionChecker<'a> {
         let mut seen_definitions = HashMap::new();
 
         // Modules can be reopened, so they're never redefinitions of each other. But they share their namespace with the
-        // definitions: a definition with the same scoped identifier as a module makes that identifier ambiguous.
-        // We record the modules first, so that this is reported no matter which of the two was parsed first.
+        // definitions and their members: a definition or member with the same scoped identifier as a module makes that
+        // identifier ambiguous. We record the modules first, so that this is reported no matter which was parsed first.
         for node in ast.as_slice() {
             if let Node::Module(module_ptr) = node {
                 let module: &dyn NamedSymbol = module_ptr.borrow();
-                seen_definitions.entry(module.parser_scoped_identifier()).or_insert(module);
+                self.modules.entry(module.parser_scoped_identifier()).or_insert(module);
             }
         }
+        seen_definitions.extend(self.modules.iter().map(|(identifier, module)| (identifier.clone(), *module)));
 
         for node in ast.as_slice() {
             // We only check `Entity`s so as to exclude any Slice elements which don't have names (and hence cannot be
@@ -110,7 +115,12 @@ impl<'a> RedefinitionChecker<'a> {
         // We create a separate hashmap, so redefinitions are isolated to just the container we're checking.
         let mut seen_definitions = HashMap::new();
         for element in contents {
-            self.check_if_redefined(element, &mut seen_definitions);
+            // A member can't share its scoped identifier with a module either (see `check_for_redefinitions`).
+            if let Some(module) = self.modules.get(&element.parser_scoped_identifier()).copied() {
+                self.report_redefinition_error(element, module);
+            } else {
+                self.check_if_redefined(element, &mut seen_definitions);
+            }
         }
     }
 
